@@ -198,6 +198,23 @@ def handle : List String → String
         s!"{c.hits}/{c.misses}/{c.entries.length}/{showBool (rs == plain)}|" ++ joinOr (rs.map showOptBytes)
       | none => "err"
     | _, _, _ => "bad-op"
+  | ["cachesim", cap, keys] =>
+    -- the LRU alone: `read_block` for a sequence of block start offsets (every load succeeds)
+    match cap.toNat?, natList keys with
+    | some cap, some keys =>
+      let c := keys.foldl (fun (c : BlockCache) k =>
+        match c.get k with
+        | (some _, c') => c'
+        | (none, c') => c'.put k []) (BlockCache.new cap)
+      s!"{c.hits}/{c.misses}/{c.entries.length}"
+    | _, _ => "bad-op"
+  | ["filecps", fh] =>
+    match bytesOfHex fh with
+    | some file =>
+      match openStore file with
+      | some sf => joinOr ((checkpointsOf sf.index).map showCp)
+      | none => "err"
+    | none => "bad-op"
   | ["iter", fh, bits] =>
     match bytesOfHex fh with
     | some file =>
